@@ -579,7 +579,7 @@ func pingOutcome(c *Ctx, id string) {
 	// which endpoint constant is which: read the service-type arguments of getServiceEndpoint from the two stores
 	h := &Harness{Fn: cb, Bools: []string{errP.Name() + "==nil", "memdFound", "mgmtFound"}, Quiet: []string{"couchbase.printLatenciesOfServiceEndpoints", "errors.New"},
 		NoInline: map[string]bool{"couchbase.getServiceEndpoint": true, "couchbase.printLatenciesOfServiceEndpoints": true},
-		Args: map[string]func(st *State) AV{},
+		Args:     map[string]func(st *State) AV{},
 		Oracle: func(st *State, name string, args []AV, res *types.Tuple) ([]AV, bool) {
 			switch name {
 			case "couchbase.getServiceEndpoint":
